@@ -4,8 +4,10 @@ C10 (persist), C12 (entry), C17/C07 (hll-query), C14 (cols + statistical search)
 """
 import gc
 import io
+import json
 import math
 import os
+import sys
 import struct
 import tempfile
 import time
@@ -585,8 +587,22 @@ def shm_slice(res, rng, tier):
             if kind in ("log16", "log8"):
                 actor.rand_ptr = ptr
                 plain.rand_ptr = ptr
-            plain.add(k, v)
-            actor.add(k, v)
+            # every entry point through every handle (a handle may have bound the arrays it was BUILT with, before it was attached)
+            entry = rng.choice(["add", "add", "update_list", "update_dict", "add_ngram", "update_ngram"])
+            ng = rng.choice([1, 2, 3])
+            for o_ in (plain, actor):
+                if entry == "add":
+                    o_.add(k, v)
+                elif entry == "update_list":
+                    o_.update([k, keys[(keys.index(k) + 1) % len(keys)]])
+                elif entry == "update_dict":
+                    o_.update({k: v})
+                elif entry == "add_ngram":
+                    o_.add_ngram(k, ng)
+                else:
+                    o_.update_ngram([k, keys[(keys.index(k) + 2) % len(keys)]], ng)
+            o_ = None
+            res.count("shm_entry_" + entry)
             if kind in ("log16", "log8"):
                 ptr = int(actor.rand_ptr)
                 if int(plain.rand_ptr) != ptr:
@@ -608,6 +624,39 @@ def shm_slice(res, rng, tier):
                                                 f"{'the owner' if idx == 0 else 'view %d' % idx} differs from the in-memory sketch", "kind": kind, "w": w, "d": d})
                     break
             n += 1
+        # a handle that OWNS a block of its own (built with shared_memory=True, as load(..., shared_memory=True) or args carrying the flag give) and is then
+        # attached to this owner's block: dropping it may release its own block, never the owner's — later attaches by name must still work
+        if rng.random() < 0.6:
+            snap = _state(owner)
+            import contextlib, io
+            try:
+                v2 = mk(True)
+                v2.attach_existing_shm(owner.shm.name)
+                seen = _state(v2)
+                with contextlib.redirect_stderr(io.StringIO()):
+                    del v2
+                    gc.collect()
+                what = None
+                if seen != snap:
+                    what = "a shared-memory sketch attached to the owner's block does not see the owner's state"
+                elif name not in _shm_names():
+                    what = "dropping a handle that had a block of its own and was attached to the owner's block removed the OWNER's segment"
+                elif _state(owner) != snap:
+                    what = "dropping such a handle changed the owner's contents"
+                else:
+                    try:
+                        v3 = s.attach_shared_memory(args[0], args[1], owner.shm.name)
+                        if _state(v3) != snap:
+                            what = "a view attached after such a handle was dropped sees another state than the owner"
+                        del v3
+                        gc.collect()
+                    except Exception as e:
+                        what = f"cannot attach to the owner's block after such a handle was dropped: {type(e).__name__}: {e}"
+                if what:
+                    res.oracle_failures.append({"pid": "C16", "what": f"C16 {kind} {w}x{d}: {what}", "kind": kind})
+                res.count("shm_owning_handle_dropped")
+            except Exception as e:
+                res.oracle_failures.append({"pid": "C16", "what": f"C16 {kind} {w}x{d}: attaching a shared-memory sketch to another owner's block raised {type(e).__name__}: {e}", "kind": kind})
         # drop a view: owner intact, segment still there
         snap = _state(owner)
         v0 = views.pop()
@@ -883,6 +932,100 @@ def persist(res, rng, tier):
     mism, ncmp = sess.run()
     res.mismatches += mism
     res.slices["persist"] = {"cases": n, "comparisons": ncmp, "mismatches": len(mism), "wall_s": round(time.time() - t0, 1)}
+
+
+def persist_fresh_process(res, rng, tier):
+    """save here, load in a NEW interpreter: the usual life of a sketch file.  Whatever the loaded sketch is made of must come from the file, not from what
+    this process happens to have computed or cached before (bases, tables, registries).  The files are loaded there in the REVERSE order of creation and
+    the set includes log16/log8 pairs with equal (max_count, num_reserved) created in both orders."""
+    import subprocess
+    import shutil
+    s = sk()
+    t0 = time.time()
+    d = tempfile.mkdtemp(prefix="skverif_fresh_", dir=TMPDIR)
+    items, origs = [], {}
+    try:
+        made = []
+        for mc, nr in [(10**6, 15), (2**32 - 1, 50)] + ([(10**9, 3), (2**40, 100)] if tier != "quick" else []):
+            first = rng.choice(["log8", "log16"])
+            for kind in (first, "log16" if first == "log8" else "log8"):
+                cls = s.CountMinLog16 if kind == "log16" else s.CountMinLog8
+                w, dd = rng.choice([2, 3, 7]), rng.choice([1, 2, 4])
+                try:
+                    made.append((kind, dict(width=w, depth=dd, max_count=mc, num_reserved=nr), cls(w, dd, mc, nr)))
+                except ValueError:
+                    pass
+            res.count("fresh_process_log_pairs")
+        for _ in range(6 if tier == "quick" else 40):
+            made.append(_rand_sketch(rng))
+        for idx, (kind, kw, o) in enumerate(made):
+            keys = key_alphabet(rng, 6)
+            draws = np().array([0.0 if rng.random() < 0.5 else ONE_MINUS for _ in range(2048)])
+            _place(o, draws)
+            for _ in range(rng.randrange(2, 30)):
+                o.add(rng.choice(keys), rng.choice([1, 1, 2, 7, 40, 300]))
+            if kind in ("log16", "log8"):
+                # a counter far above num_reserved, so that the answers depend on the base
+                o.cms[:, :] = np().minimum(o.cms + np().array(int(kw.get("num_reserved", 15)) + 40, dtype=o.cms.dtype), o.cms.dtype.type(int(o.uint_maxval)))
+            path = os.path.join(d, f"f{idx}.npz")
+            o.save(path)
+            qk = [k[: kw.get("max_key_len", 10**9)] for k in keys]
+            shm = rng.random() < 0.3
+            loader = "any" if kind in ("linear", "log16", "log8") and rng.random() < 0.4 else kind
+            items.append({"id": idx, "path": path, "kind": kind, "loader": loader, "shm": shm, "keys": [k.hex() for k in qk]})
+            rec = {"class": type(o).__name__, "public": {k: list(v) if isinstance(v, tuple) else v for k, v in _public(o).items() if k != "class"}, "state": _state(o), "kw": {k: str(v) for k, v in kw.items()}}
+            if kind == "hll":
+                rec["answers"] = ["%016x" % fbits(o.query())]
+            else:
+                rec["answers"] = ["%016x" % fbits(o[k]) for k in qk]
+                rec["n"] = [int(o.n_added()), int(o.n_records())]
+            if kind == "hh":
+                rec["top"] = [[k.hex(), int(c)] for k, c in o.query(5)]
+            origs[idx] = rec
+            res.count("fresh_process_" + kind)
+        man = os.path.join(d, "manifest.json")
+        outp = os.path.join(d, "out.json")
+        from real import REPO
+        json.dump({"repo": REPO, "files": list(reversed(items))}, open(man, "w"))
+        env = dict(os.environ)
+        env["PYTHONPATH"] = REPO
+        pr = subprocess.run([sys.executable, os.path.join(os.path.dirname(os.path.abspath(__file__)), "fresh_load.py"), man, outp], env=env, capture_output=True, text=True, timeout=600)
+        if pr.returncode != 0 or not os.path.exists(outp):
+            res.oracle_failures.append({"pid": "C10", "what": f"C10 a fresh interpreter could not load the saved files at all: exit {pr.returncode}: {pr.stderr[-400:]}", "kind": "fresh-process"})
+            got = []
+        else:
+            got = json.load(open(outp))
+        for rec in got:
+            o = origs[rec["id"]]
+            it = items[rec["id"]]
+            what = f"{it['kind']}{o['kw']} saved here and loaded in a fresh interpreter (loader {it['loader']}, shared_memory={it['shm']})"
+            if "error" in rec:
+                res.oracle_failures.append({"pid": "C10", "what": f"C10 {what}: load raised {rec['error']}", "kind": it["kind"]})
+                continue
+            if rec["class"] != o["class"]:
+                res.oracle_failures.append({"pid": "C10", "what": f"C10 {what}: class {rec['class']} instead of {o['class']}", "kind": it["kind"]})
+            pub = {k: list(v) for k, v in rec["public"].items()}
+            if pub != o["public"]:
+                diff = {k: (o["public"].get(k), pub.get(k)) for k in set(pub) | set(o["public"]) if pub.get(k) != o["public"].get(k)}
+                res.oracle_failures.append({"pid": "C10", "what": f"C10 {what}: public attributes differ (original, loaded): {diff}", "kind": it["kind"]})
+            if rec["state"] != o["state"] or rec.get("n") != o.get("n"):
+                res.oracle_failures.append({"pid": "C10", "what": f"C10 {what}: tables / n_added / n_records differ", "kind": it["kind"]})
+            if rec["answers"] != o["answers"] or rec.get("top") != o.get("top"):
+                i = next((j for j, (a, b) in enumerate(zip(rec["answers"], o["answers"])) if a != b), 0)
+                fl = lambda h: struct.unpack("<d", struct.pack("<Q", int(h, 16)))[0]
+                res.oracle_failures.append({"pid": "C10", "what": f"C10 {what}: query #{i} answers {fl(rec['answers'][i])!r}, the original answered {fl(o['answers'][i])!r}", "kind": it["kind"]})
+            res.evaluations += 1
+            res.nontrivial(["fresh-process", it["kind"], o["kw"], rec["id"]])
+        res.slices["persist_fresh_process"] = {"files": len(items), "loaded": len(got), "wall_s": round(time.time() - t0, 1)}
+    finally:
+        del made
+        gc.collect()
+        shutil.rmtree(d, ignore_errors=True)
+
+
+def persist_all(res, rng, tier):
+    persist(res, rng, tier)
+    persist_fresh_process(res, rng, tier)
 
 
 # =============================================================================== C12 entry points (real vs real)
